@@ -452,6 +452,20 @@ findInsertionPointBinarySearch(
 
 
 
+// Get the document that owns a node.  A document node, or a document
+// fragment node, owns itself, which is not how DOM works...
+inline const XalanNode*
+getOwner(const XalanNode&   node)
+{
+    const XalanNode::NodeType   theType = node.getNodeType();
+
+    return theType == XalanNode::DOCUMENT_NODE ||
+           theType == XalanNode::DOCUMENT_FRAGMENT_NODE ?
+                &node : node.getOwnerDocument();
+}
+
+
+
 template<class PredicateType>
 inline bool
 findInsertionPointLinearSearch(
@@ -469,8 +483,14 @@ findInsertionPointLinearSearch(
 
     NodeListIteratorType    current(begin);
 
-    // Loop, looking for the node, or for a
-    // node that's before the one we're adding...
+    const XalanNode* const  theOwner = getOwner(*node);
+
+    bool    fFoundOwner = false;
+
+    // Loop, looking for the node, or for the position of the node
+    // within the nodes from the same document.  Nodes from a
+    // document are kept together, so if there are no nodes from
+    // this document, the node is added at the end.
     while(current != end)
     {
         const XalanNode*    child = *current;
@@ -483,9 +503,28 @@ findInsertionPointLinearSearch(
 
             break;
         }
-        else if (isNodeAfterPredicate(*node, *child) == false)
+        else if (getOwner(*child) == theOwner)
         {
-            // We found the insertion point...
+            fFoundOwner = true;
+
+            // A document node is before every other node in the
+            // document.  Otherwise, the predicate decides.
+            if (node == theOwner ||
+                (child != theOwner &&
+                 isNodeAfterPredicate(*node, *child) == false))
+            {
+                // We found the insertion point...
+                break;
+            }
+            else
+            {
+                ++current;
+            }
+        }
+        else if (fFoundOwner == true)
+        {
+            // This is the end of the nodes from the same
+            // document, which is the insertion point...
             break;
         }
         else
@@ -501,37 +540,8 @@ findInsertionPointLinearSearch(
 
 
 
-struct DocumentPredicate
-{
-    bool
-    operator()(
-            const XalanNode&    node1,
-            const XalanNode&    node2) const
-    {
-        // Always order a document node, or a node from another
-        // document after another node...
-        const XalanNode::NodeType   node1Type =
-            node1.getNodeType();
-
-        const XalanNode::NodeType   node2Type =
-            node2.getNodeType();
-
-        if ((node1Type == XalanNode::DOCUMENT_NODE ||
-             node1Type == XalanNode::DOCUMENT_FRAGMENT_NODE) &&
-            (node2Type == XalanNode::DOCUMENT_NODE ||
-             node2Type == XalanNode::DOCUMENT_FRAGMENT_NODE))
-        {
-            return true;
-        }
-        else
-        {
-            return node1.getOwnerDocument() != node2.getOwnerDocument();
-        }
-    }
-};
-
-
-
+// This predicate is only called for two nodes from the
+// same document, neither of which is the document node.
 struct IndexPredicate
 {
     bool
@@ -541,15 +551,15 @@ struct IndexPredicate
     {
         assert(node1.getOwnerDocument() == node2.getOwnerDocument());
 
-        return m_documentPredicate(node1, node2) == true ? true : node1.getIndex() > node2.getIndex() ? true : false;
+        return node1.getIndex() > node2.getIndex() ? true : false;
     }
-
-    DocumentPredicate   m_documentPredicate;
 };
 
 
 
 
+// This predicate is only called for two nodes from the
+// same document, neither of which is the document node.
 struct ExecutionContextPredicate
 {
     ExecutionContextPredicate(XPathExecutionContext&    executionContext) :
@@ -562,26 +572,17 @@ struct ExecutionContextPredicate
             const XalanNode&    node1,
             const XalanNode&    node2) const
     {
-        if (m_documentPredicate(node1, node2) == true)
-        {
-            return true;
-        }
-        else
-        {
-            assert(node1.getOwnerDocument() == node2.getOwnerDocument());
-            assert(
-                node1.getNodeType() != XalanNode::DOCUMENT_NODE &&
-                node1.getNodeType() != XalanNode::DOCUMENT_FRAGMENT_NODE &&
-                node2.getNodeType() != XalanNode::DOCUMENT_NODE &&
-                node2.getNodeType() != XalanNode::DOCUMENT_FRAGMENT_NODE);
+        assert(node1.getOwnerDocument() == node2.getOwnerDocument());
+        assert(
+            node1.getNodeType() != XalanNode::DOCUMENT_NODE &&
+            node1.getNodeType() != XalanNode::DOCUMENT_FRAGMENT_NODE &&
+            node2.getNodeType() != XalanNode::DOCUMENT_NODE &&
+            node2.getNodeType() != XalanNode::DOCUMENT_FRAGMENT_NODE);
 
-            return  m_executionContext.isNodeAfter(node1, node2);
-        }
+        return  m_executionContext.isNodeAfter(node1, node2);
     }
 
     XPathExecutionContext&  m_executionContext;
-
-    DocumentPredicate       m_documentPredicate;
 };
 
 
